@@ -178,6 +178,26 @@ def mc_cfg(wd, name, consts, dev, invariants, hist=False, emit=0):
     return cfg
 
 
+def mc_client_cfg(wd, name, consts, dev, invariants, hist=False, led=True):
+    """configuration of MC_client.tla (client layer on top of DEngine); led: start from the settled state"""
+    c = dict(consts)
+    faults = c.pop("Faults")
+    cfg = os.path.join(wd, name + ".cfg")
+    constants = {k: v for k, v in c.items()}
+    constants["Dev"] = dv.tla_set(dev)
+    constants["Faults"] = dv.tla_set(faults)
+    constants.setdefault("InitView", "<- IV_all")
+    constants.setdefault("MaxCfg", 0)
+    constants["HistOn"] = "TRUE" if hist else "FALSE"
+    constants["EmitDepth"] = 0
+    constants.setdefault("Eager", "{}")
+    constants.setdefault("MaxLevel", 1000)
+    lean = constants.pop("Lean", False)
+    dv.write_cfg(cfg, spec="SpecLed" if led else "SpecC", constants=constants, invariants=invariants,
+                 constraint="BoundC3", view="cViewLean" if lean else "cView")
+    return cfg
+
+
 def uniquify(sched, tag):
     """Give every client write of a TLC-generated schedule its own value token."""
     k = 0
